@@ -7,6 +7,7 @@ import (
 	"github.com/XiXi-2024/xixi-kv/fio"
 	"github.com/XiXi-2024/xixi-kv/index"
 	"github.com/XiXi-2024/xixi-kv/utils"
+	"github.com/XiXi-2024/xixi-kv/verifhook"
 	"github.com/gofrs/flock"
 	"io"
 	"os"
@@ -221,6 +222,7 @@ func (db *DB) Put(key []byte, value []byte) error {
 	if err != nil {
 		return err
 	}
+	verifhook.Point("put.appended", key)
 
 	// 更新索引, 并维护无效数据量
 	if oldPos := db.index.Put(key, pos); oldPos != nil {
@@ -240,6 +242,7 @@ func (db *DB) Get(key []byte) ([]byte, error) {
 	// 从内存中获取 key 对应的索引数据
 	// 索引已能确保线程安全
 	logRecordPos := db.index.Get(key)
+	verifhook.Point("get.indexed", key)
 	if logRecordPos == nil {
 		return nil, ErrKeyNotFound
 	}
@@ -262,6 +265,7 @@ func (db *DB) Delete(key []byte) error {
 	if pos := db.index.Get(key); pos == nil {
 		return nil
 	}
+	verifhook.Point("delete.checked", key)
 
 	// 构造 LogRecord 设置删除状态, 作为墓碑值追加到数据文件中
 	logRecord := db.recordPool.Get().(*datafile.LogRecord)
@@ -276,6 +280,7 @@ func (db *DB) Delete(key []byte) error {
 	}
 	// 墓碑值本身可视为无效数据
 	db.reclaimSize += int64(pos.Size)
+	verifhook.Point("delete.appended", key)
 
 	// 更新索引信息
 	oldPos := db.index.Delete(key)
